@@ -77,6 +77,7 @@ def analyse_module(mod: S.Module, all_classes, report, oblige):
                     shared_instances[name] = cname
     # attributes of self that alias shared objects (R-C13.4)
     aliased_attrs: dict[tuple[str, str], str] = {}
+    aliased_elems: dict[tuple[str, str], tuple[str, int]] = {}
     for qual, fn, cname in F.iter_functions(mod):
         cls = classes.get(cname) if cname else None
         scope = F.FnScope(mod, fn, cls, all_classes)
@@ -99,6 +100,16 @@ def analyse_module(mod: S.Module, all_classes, report, oblige):
                                 if kind == "MUTDEFAULT":
                                     report("R-C13.3", mod, qual, n, f"mutable default argument `{detail}` is stored in self.{t.attr}: all instances built without that argument share one object")
                                     ok = False
+                        # a shared object placed INSIDE the fresh container the attribute is bound to (`self.stack = [_TABLE, dict()]`)
+                        for cand, depth in F._element_alias_sources(n.value):
+                            kind, detail = scope.classify(cand)
+                            if kind in ("SHARED", "CLASSATTR", "MUTDEFAULT"):
+                                root, _ = F.root_of(cand)
+                                if kind == "SHARED" and isinstance(root, ast.Name) and (root.id in mod.functions or root.id in mod.classes) and cand is root:
+                                    continue
+                                if kind == "SHARED" and isinstance(root, ast.Name) and cand is root and _immutable_binding(mod, root.id):
+                                    continue
+                                aliased_elems[(cls.name, t.attr)] = (detail, depth)
                         oblige("R-C13.4", mod, qual, n, ok)
 
     for qual, fn, cname in F.iter_functions(mod):
@@ -126,6 +137,9 @@ def analyse_module(mod: S.Module, all_classes, report, oblige):
                 # mutation *through* self.attr (not rebinding of self.attr itself)
                 if not (ws.kind == "store" and isinstance(t, ast.Attribute) and t.value is root):
                     kind, detail = "SHARED", f"self.{detail} aliases {aliased_attrs[(cls.name, detail)]}"
+            if kind == "INSTANCE" and cls is not None and (cls.name, detail) in aliased_elems and len(path) >= 1 + aliased_elems[(cls.name, detail)][1]:
+                # mutation of an ELEMENT of the container held by self.attr, and one element of that container is a shared object
+                kind, detail = "SHARED", f"an element of self.{detail} is {aliased_elems[(cls.name, detail)][0]} (placed there when the attribute was bound)"
             if kind == "SHARED":
                 report("R-C13.1", mod, qual, ws.node, f"{ws.kind} reaches shared object: {detail}")
                 oblige("R-C13.1", mod, qual, ws.node, False)
@@ -165,6 +179,26 @@ def analyse_module(mod: S.Module, all_classes, report, oblige):
             if isinstance(n, ast.Attribute) and isinstance(n.value, ast.Name) and (n.value.id, n.attr) in AMBIENT_ATTRS and not scope.is_local(n.value.id):
                 report("R-C13.5", mod, qual, getattr(n, "_parent", n), f"reads ambient process state {n.value.id}.{n.attr}")
                 oblige("R-C13.5", mod, qual, n, False)
+
+
+def _immutable_binding(mod, name):
+    """every module-level binding of the name is an immutable literal (number, string, None, tuple / frozenset of such)"""
+    def imm(v):
+        if isinstance(v, ast.Constant):
+            return True
+        if isinstance(v, ast.Tuple):
+            return all(imm(e) for e in v.elts)
+        if isinstance(v, ast.Call) and isinstance(v.func, ast.Name) and v.func.id == "frozenset":
+            return True
+        if isinstance(v, (ast.UnaryOp,)):
+            return imm(v.operand)
+        if isinstance(v, ast.BinOp):
+            return imm(v.left) and imm(v.right)
+        if isinstance(v, ast.JoinedStr):
+            return True
+        return False
+    sts = mod.assigns.get(name, [])
+    return bool(sts) and all(getattr(st, "value", None) is not None and imm(st.value) for st in sts)
 
 
 def _callee_only_reads(mod, cname, call, argpos, depth):
